@@ -15,7 +15,7 @@
 //!   builder stores is parsed back by an independent RFC §3.4/§3.5 reader to the depths.
 //!
 //! Generators (all from one PRNG state): exhaustive count vectors over <= 6 symbols with
-//! counts 0..12 (quick: n <= 4 complete + contiguous slices of n = 5, 6; thorough: all),
+//! counts 0..12 (quick: n <= 5 complete + every 5th 2000-vector block of n = 6; thorough: all),
 //! 18-symbol Fibonacci-like skews for limit 5, random alphabets 2..704 with
 //! geometric / Fibonacci / flat / sparse / run-structured shapes and counts up to 2^24 with
 //! histogram total <= 2^30 (the domain in which C17.lean proves termination and absence of
@@ -758,7 +758,7 @@ pub fn run_cmd(args: &Args) {
     for nsym in 1..=6usize {
         let total = 13u64.pow(nsym as u32);
         let bs = 2000u64;
-        let stride = if thorough || nsym <= 4 { bs } else if nsym == 5 { 10 * bs } else { 60 * bs };
+        let stride = if thorough || nsym <= 5 { bs } else { 5 * bs };
         let mut lo = 0;
         while lo < total { blocks.push((nsym, lo, (lo + bs).min(total))); lo += stride; }
     }
@@ -802,7 +802,7 @@ pub fn run_cmd(args: &Args) {
     for p in parts { for (l, a) in p.lines { corr.case(&l, &a); } rep.merge(p.rep); }
 
     // 4. random alphabets 2..704
-    let ncases = if thorough { 16000 } else { 800 };
+    let ncases = if thorough { 60000 } else { 6000 };
     let parts = par_tasks(64, move |t| {
         let mut rng = Rng::new(seed ^ 0x68756666 ^ ((t as u64) << 20));
         let mut rep = Report::default();
